@@ -397,6 +397,7 @@ func (c *HostClient) Do(ctx context.Context, req *protocol.Request, resp *protoc
 		case <-ctx.Done():
 			vhook("do.ctxdone", c, nil, nil)
 			req.CloseBodyStream() //nolint:errcheck
+			atomic.AddInt32(&c.pendingRequests, -1)
 			return ctx.Err()
 		default:
 		}
